@@ -14,9 +14,9 @@ def run(tier, replay):
         if tier == "quick":
             jobs = [["crash", 1, 0, 1, 0, 1], ["crash", 2, 20, 2, 1, 1, "zt"], ["crash", 2, 40, 3, 2, 0, "zt"], ["crash", 2, 70, 4, 0, 1], ["crash", 1, 40, 0, 1, 0, "zt"], ["crash", 2, 70, 1, 2, 0]]
         else:
-            jobs = [["crash", T, n, cm, (n // 10 + cm) % 3, u] + (["zt"] if (n + cm) % 2 else []) for T in (1, 2) for n in (0, 20, 40, 70) for cm in range(5) for u in (0, 1)]
+            jobs = [["crash", T, n, cm, (n // 10 + cm) % 3, u] + (["zt"] if (n + cm) % 2 else []) for T in (1, 2, 3) for n in (0, 16, 20, 32, 40, 64, 70, 100) for cm in range(5) for u in (0, 1)]
         events = fl.collect(res, PID, jobs)
-    st, nfull = fl.judge(res, PID, events, full_sample=40 if tier == "quick" else 500)
+    st, nfull = fl.judge(res, PID, events, full_sample=40 if tier == "quick" else 2000)
     ops = [e for e in events if e["e"] == "op"]
     logs = [e for e in events if e["e"] == "writelog"]
     keys = set((e["job"], e["pos"], e["val"]) for e in ops)
